@@ -1,5 +1,5 @@
 From PdfV Require Import Base.Prelude Base.DecProofs Gen.Generated Lex.Lexer Lex.StrLexer Lex.LexProofs Lex.StrProofs
-  Syn.Prim Syn.Utf8 Syn.Parser Syn.Serialize Syn.Spells Syn.ParserProofs Syn.NameProofs Syn.RenderProofs Syn.SerProofs Properties.C04.
+  Syn.Prim Syn.Utf8 Syn.Parser Syn.Serialize Syn.Spells Syn.ParserProofs Syn.NameProofs Syn.RenderProofs Syn.SerProofs Syn.IndirectSerProofs Properties.C04.
 Check C04_ser_spells : forall v, storable v ->
   exists core, ser v = Ok (core ++ trail v) /\ spells v (items_of v) /\
     forall tl, boundary tl -> renders (items_of v) (core ++ trail v ++ tl) (trail v ++ tl).
@@ -11,3 +11,9 @@ Check C04_roundtrip : forall v, storable v -> vdepth v <= MAX_DEPTH ->
 Check C04_roundtrip_eof : forall v, storable v -> vdepth v <= MAX_DEPTH -> forall R,
   exists b, ser v = Ok b /\ parse R F_ANY b = Ok v.
 Check C04_ser_no_panic : forall v s, ser v <> Panic s.
+Check C04_indirect_body : forall v id gen,
+  storable v -> vdepth v <= MAX_DEPTH -> id < 18446744073709551616 -> gen < 18446744073709551616 ->
+  forall R allow rest p,
+  exists body, ser v = Ok body /\
+    parse_indirect_object R allow F_ANY (mkLx p (obj_text id gen body rest)) =
+      Ok (id, gen, v, mkLx (p + lenN (obj_text id gen body rest) - lenN ([10] ++ rest)) ([10] ++ rest)).
